@@ -126,7 +126,7 @@ func c10Check(r *ev.Run, alphabet []streamFrame, stats map[string]int64) func(ru
 		// error channel
 		nerr := 0
 		if run.ms != nil {
-			nerr = len(run.ms.Error)
+			nerr = len(run.ms.Error) + run.errs
 		}
 		if !failing {
 			// (2) nothing lost, nobody stuck
@@ -395,6 +395,34 @@ func c10Scenarios(thorough bool, alphabet []streamFrame, heavy func(fam string) 
 			}
 		}
 	}
+	// a parser that takes its time: the frame it was handed is its own until it returns, however many
+	// frames arrive meanwhile (the pool goes round while one parser call is still looking at its frame)
+	for _, nf := range []int{52, 104} {
+		var seq []int
+		for i := 0; i < nf; i++ {
+			seq = append(seq, []int{0, 1, 2, 3}[i%4])
+		}
+		var perFrame []int
+		o := 0
+		for _, f := range seq[:len(seq)-1] {
+			o += len(alphabet[f].B)
+			perFrame = append(perFrame, o)
+		}
+		for _, pol := range []string{"reader-first", "consumer-last"} {
+			if nf > 52 && pol != "reader-first" {
+				continue
+			}
+			b := 1
+			if nf > 52 {
+				b = 0
+			}
+			add("S-C slow parser", streamScenario{Frames: seq, Cuts: perFrame, SlowParser: true, FailAfter: -1, Bound: b, Devs: true, Policy: pol, ShutAt: -1})
+			add("S-C slow parser", streamScenario{Frames: seq, SlowParser: true, FailAfter: -1, Bound: b, Devs: true, Policy: pol, ShutAt: -1})
+		}
+	}
+	for _, seq := range [][]int{{0}, {0, 1}} {
+		add("S-B all interleavings", streamScenario{Frames: seq, SlowParser: true, FailAfter: -1, Bound: -1, ShutAt: -1})
+	}
 	// oversize frames through the whole pool: 56 frames larger than a pool buffer's capacity (each
 	// grows the buffer it lands in), then small ones; and a frame the parser rejects followed by more
 	// frames than the pool has buffers (the buffer that held it comes round again)
@@ -481,6 +509,10 @@ func c10Scenarios(thorough bool, alphabet []streamFrame, heavy func(fam string) 
 					continue
 				}
 				add("S-D read error", streamScenario{Frames: seq, FailAfter: k, FailErr: e, Bound: -1, ShutAt: -1})
+				if e == "EOF" && (len(seq) == 1 && (k == 1 || k == n/2 || k == n) || len(seq) == 2 && seq[0] != seq[1] && k == n) {
+					// the failed connection cannot be closed cleanly either: still one failure, published once
+					add("S-D read error", streamScenario{Frames: seq, FailAfter: k, FailErr: e, CloseErr: true, Bound: -1, ShutAt: -1})
+				}
 			}
 		}
 		for s := 0; s <= len(seq); s++ {
